@@ -41,8 +41,28 @@
    harness replays on the real pass).
 
    BarrierFix = TRUE models the proposed repair (the barrier branch runs the same "block qudits" loop as the
-   gate branch); with it `ResOK` is an invariant. *)
-EXTENDS PartitionRules, TLC
+   gate branch); with it `ResOK` is an invariant.
+
+   MODEL-BASED TEST GENERATION.  `mech` is a history variable: the set of mechanisms of the algorithm that MADE A
+   DIFFERENCE somewhere in the run so far (see Mechs below).  Three of them are defined with shadow copies of
+   Bin.blocked_qudits that follow the rule the code would follow WITHOUT one part of the bookkeeping:
+     bD  without the transitive half of "block qudits to prevent circular dependencies"
+         (active_bin.blocked_qudits.update(selected_bin.blocked_qudits)),
+     bQ  when two bins count as related only through a shared qudit (not through active_bin.blocked_qudits),
+     bB  without the barrier branch blocking the barrier's foreign qudits on a bin that stays open;
+   "trans" / "indirect" / "barblock" enter `mech` exactly when Bin.can_accommodate gives a different answer with the
+   shadow set than with the real one: that part of the bookkeeping DECIDED an admissibility test.  The others mark
+   decisions of can_accommodate, of the bin selection and of the merge step that a change to the code could get wrong.
+   A finalised circuit whose mech meets EmitMechs is printed as <<"QPM", bs, NQ, circuit, mechs>>; the harness feeds
+   those circuits back (PrefixMode = "script": the circuits of the JSON file IOEnv.QP_SCRIPTS, every set-iteration
+   order, <<"QPS", ...>> printed for every outcome), and replays them into the real pass under several values of the
+   process-wide Bin.id counter (which decides the iteration order there).
+   * exhaustive search for widths the plain configurations cannot reach: CONSTRAINT DirectedTrans prunes every prefix
+     from which "trans" cannot be reached within MaxOps operations (necessary conditions: a bin can only get a
+     transitive part from a selected bin that already has blocked qudits, and the transitive part can only decide a
+     test of a bin that has one) -- all circuits of <= MaxOps operations in which the transitive part decides are kept;
+   * `-simulate` with MinFinal = MaxOps: random circuits of exactly MaxOps operations, one iteration order each. *)
+EXTENDS PartitionRules, TLC, Json, IOUtils
 
 CONSTANTS NQ,            \* number of qudits
           MaxOps,        \* circuits of 1..MaxOps operations
@@ -53,11 +73,21 @@ CONSTANTS NQ,            \* number of qudits
           BarrierFix,    \* FALSE: the code as it is; TRUE: with the proposed repair
           PrefixMode,    \* "none", or "close3": a forced beginning (see Prefix) used to reach deep scenarios (five
                          \* closed bins) without enumerating every short circuit again
-          EmitMod        \* 0: print nothing; m > 0: print <<"QP", circuit, output>> for the circuits whose checksum is
+          EmitMod,       \* 0: print nothing; m > 0: print <<"QP", circuit, output>> for the circuits whose checksum is
                          \* divisible by m (a deterministic sample; they are replayed into the real pass)
+          MinFinal,      \* Finalize only circuits of at least MinFinal operations (1: every prefix)
+          EmitMechs,     \* print <<"QPM", ...>> for a finalised circuit in which one of these mechanisms made a difference
+          Slack          \* used by the constraint DirectedTrans only: MaxOps - 3
 
-VARIABLES phase, bs, circ, bins, ab, pend, dl, nc, part, asserts, res
-vars == <<phase, bs, circ, bins, ab, pend, dl, nc, part, asserts, res>>
+VARIABLES phase, bs, circ, bins, ab, pend, dl, nc, part, asserts, res,
+          mech,          \* history: mechanisms that made a difference so far
+          sid            \* PrefixMode = "script": index of the circuit being followed, else 0
+vars == <<phase, bs, circ, bins, ab, pend, dl, nc, part, asserts, res, mech, sid>>
+
+\* every mechanism name, in the order they are printed
+Mechs == <<"trans", "indirect", "barblock", "blocked", "blocked-active", "wide-bin", "reentry", "holder",
+           "multi-adm", "multi-overlap", "barrier-partial", "merge-sub", "merge-super", "midflush">>
+MechSeq(S) == SelectSeq(Mechs, LAMBDA m : m \in S)
 
 Q == 0..NQ - 1
 MaxS(S) == CHOOSE x \in S : \A y \in S : y <= x
@@ -85,7 +115,13 @@ NewOp(bar, L) == [bar |-> bar, loc |-> SortedSeq(L), cyc |-> MaxS({LastCyc(q) : 
 Prefix == IF PrefixMode = "close3"
           THEN << <<FALSE, {0}>>, <<FALSE, {1}>>, <<FALSE, {2}>>, <<FALSE, {0, 1, 2}>> >>
           ELSE <<>>
-PrefixOK(bar, L) == IF Len(circ) >= Len(Prefix) THEN TRUE
+\* "script": the circuits to follow, [bs |-> block size, ops |-> <<[b |-> 0/1, loc |-> ascending qudits], ...>>] in
+\* iteration order (a script that is not in iteration order has no behaviour: the harness checks that each one finishes)
+Scripts == IF PrefixMode = "script" THEN JsonDeserialize(IOEnv.QP_SCRIPTS) ELSE <<>>
+PrefixOK(bar, L) == IF PrefixMode = "script"
+                    THEN /\ Len(circ) < Len(Scripts[sid].ops)
+                         /\ LET p == Scripts[sid].ops[Len(circ) + 1] IN (p.b = 1) = bar /\ Range(p.loc) = L
+                    ELSE IF Len(circ) >= Len(Prefix) THEN TRUE
                     ELSE Prefix[Len(circ) + 1][1] = bar /\ Prefix[Len(circ) + 1][2] = L
 InOrder(o) == IF Len(circ) = 0 THEN TRUE
               ELSE LET p == circ[Len(circ)] IN IF o.cyc = p.cyc THEN o.loc[1] > p.loc[1] ELSE o.cyc > p.cyc
@@ -94,6 +130,7 @@ InOrder(o) == IF Len(circ) = 0 THEN TRUE
 \* bins: st / nx are ordinals per qudit (-1: not set)
 
 EmptyBin == [qs |-> <<>>, st |-> [q \in Q |-> -1], nx |-> [q \in Q |-> -1], act |-> {}, blkd |-> {},
+             bD |-> {}, bQ |-> {}, bB |-> {},          \* shadow blocked sets (see the head of the module)
              ops |-> <<>>, bar |-> FALSE]
 
 \* close_bin_qudits(bin, loc, cycle) on run state S = [bins, ab, pend, nc, flag]; pos[q] = ordinal of the closing
@@ -118,14 +155,18 @@ CloseSeq(S, ids, L, pos, barrier) ==
            S1 == CloseQudits(S, b, L, pos)
            S2 == IF S1.flag THEN [S1 EXCEPT !.nc = @ + 1]
                  ELSE IF barrier
-                      THEN [S1 EXCEPT !.bins[b].blkd = @ \cup (L \ Range(S1.bins[b].qs))]
+                      THEN LET ext == L \ Range(S1.bins[b].qs)
+                           IN [S1 EXCEPT !.bins[b].blkd = @ \cup ext, !.bins[b].bD = @ \cup ext,
+                                         !.bins[b].bQ = @ \cup ext]          \* bB: without this blocking
                       ELSE S1
        IN CloseSeq(S2, Tail(ids), L, pos, barrier)
 
-CanAccommodate(bn, L) ==
-  /\ ~(\E q \in L : q \in bn.blkd /\ q \notin bn.act)
-  /\ \A q \in L : q \notin Range(bn.qs) \/ q \in bn.act
-  /\ Cardinality(Range(bn.qs) \cup L) <= (IF bs >= Len(bn.qs) THEN bs ELSE Len(bn.qs))
+\* Bin.can_accommodate with BL as the bin's blocked set
+BlockedOK(bn, L, BL) == ~(\E q \in L : q \in BL /\ q \notin bn.act)
+ActiveOK(bn, L) == \A q \in L : q \notin Range(bn.qs) \/ q \in bn.act
+SizeOK(bn, L) == Cardinality(Range(bn.qs) \cup L) <= (IF bs >= Len(bn.qs) THEN bs ELSE Len(bn.qs))
+CanAcc(bn, L, BL) == BlockedOK(bn, L, BL) /\ ActiveOK(bn, L) /\ SizeOK(bn, L)
+CanAccommodate(bn, L) == CanAcc(bn, L, bn.blkd)
 
 \* Bin.add_op: operation number i with location loc, pos[q] = its ordinal on q
 AddToBin(bn, i, loc, pos) ==
@@ -139,59 +180,99 @@ Cur == [bins |-> bins, ab |-> ab, pend |-> pend, nc |-> nc, flag |-> FALSE]
 Overlapping(L) == {ab[q] : q \in L} \ {0}
 Pos == TLCEval([q \in Q |-> Cnt(q)])
 
-\* the "block qudits to prevent circular dependencies" loop for a bin with qudits QS and blocked set BL
-BlockAgainst(B, abx, skip, QS, BL) ==
+\* the "block qudits to prevent circular dependencies" loop for the selected bin sb with qudits QS; each shadow set
+\* follows its own variant of the rule
+BlockAgainst(B, abx, skip, QS, sb) ==
   TLCEval([b \in 1..Len(B) |->
-     IF b # skip /\ b \in {abx[q] : q \in Q} /\ ((B[b].blkd \cup Range(B[b].qs)) \cap QS) # {}
-     THEN [B[b] EXCEPT !.blkd = @ \cup QS \cup BL]
+     IF b # skip /\ b \in {abx[q] : q \in Q}
+     THEN LET bn == B[b]
+              Rel(X) == ((X \cup Range(bn.qs)) \cap QS) # {}
+          IN [bn EXCEPT !.blkd = IF Rel(bn.blkd) THEN @ \cup QS \cup sb.blkd ELSE @,
+                        !.bD   = IF Rel(bn.bD) THEN @ \cup QS ELSE @,
+                        !.bQ   = IF (Range(bn.qs) \cap QS) # {} THEN @ \cup QS \cup sb.bQ ELSE @,
+                        !.bB   = IF Rel(bn.bB) THEN @ \cup QS \cup sb.bB ELSE @]
      ELSE B[b]])
+
+\* mechanisms that make a difference when a gate on L meets the overlapping bins (tests on the bins as they are
+\* before anything is closed, as in the code)
+MechGate(L, adm, holders) ==
+  LET O == Overlapping(L)
+      T(b, X) == CanAcc(bins[b], L, X)
+      If(c, m) == IF c THEN {m} ELSE {}
+  IN If(\E b \in O : T(b, bins[b].blkd) # T(b, bins[b].bD), "trans")
+     \cup If(\E b \in O : T(b, bins[b].blkd) # T(b, bins[b].bQ), "indirect")
+     \cup If(\E b \in O : T(b, bins[b].blkd) # T(b, bins[b].bB), "barblock")
+     \* the blocked set decides at all; a blocked qudit is accepted because it is active in the bin;
+     \* a bin wider than the block size keeps absorbing; an operation comes back to a qudit the bin was closed on
+     \cup If(\E b \in O : ~T(b, bins[b].blkd) /\ T(b, {}), "blocked")
+     \cup If(\E b \in O : T(b, bins[b].blkd) /\ (L \cap bins[b].blkd \cap bins[b].act) # {}, "blocked-active")
+     \cup If(\E b \in O : T(b, bins[b].blkd) /\ Cardinality(Range(bins[b].qs) \cup L) > bs, "wide-bin")
+     \cup If(\E b \in O : ~ActiveOK(bins[b], L) /\ BlockedOK(bins[b], L, bins[b].blkd) /\ SizeOK(bins[b], L), "reentry")
+     \* selection: a later admissible bin is preferred because it holds every qudit; several admissible; several overlapping
+     \cup If(holders # {} /\ 1 \notin holders, "holder")
+     \cup If(Len(adm) >= 2, "multi-adm")
+     \cup If(Cardinality(O) >= 2, "multi-overlap")
+
+\* NOTE on the shape of the actions: TLC re-evaluates an action-level LET definition at every reference (only inside an
+\* expression are they evaluated once), so each step computes its whole result as ONE record (an expression) and the
+\* action binds it with  \E R \in {...}.
+
+\* the barrier-like operation number i on L (o = NewOp(TRUE, L)) with the overlapping bins visited in the order ord
+BarrierResult(L, o, i, ord) ==
+  LET P == Pos
+      S == CloseSeq(Cur, ord, L, P, TRUE)
+      \* "barrier bins fill the volume to the next gates": the next thing on q is whatever follows
+      bb == [EmptyBin EXCEPT !.qs = o.loc, !.bar = TRUE, !.ops = <<i>>,
+                              !.st = TLCEval([q \in Q |-> IF q \in L THEN P[q] ELSE -1]),
+                              !.nx = TLCEval([q \in Q |-> IF q \in L THEN P[q] + 1 ELSE -1])]
+      B1 == IF BarrierFix THEN BlockAgainst(S.bins, S.ab, 0, L, EmptyBin) ELSE S.bins
+  IN [bins |-> Append(B1, bb), pend |-> Append(S.pend, Len(S.bins) + 1), ab |-> S.ab, nc |-> S.nc,
+      mech |-> (IF \E b \in Overlapping(L) : ~(bins[b].act \subseteq L) THEN {"barrier-partial"} ELSE {})
+               \cup (IF Cardinality(Overlapping(L)) >= 2 THEN {"multi-overlap"} ELSE {})]
 
 StepBarrier ==
   /\ phase = "scan" /\ Len(circ) < MaxOps
   /\ \E L \in BarrierLocs :
-       LET o == NewOp(TRUE, L)
-           i == Len(circ) + 1
-       IN /\ PrefixOK(TRUE, L) /\ InOrder(o)
-          /\ \E ord \in PermSeqs(Overlapping(L)) :
-               LET S == CloseSeq(Cur, ord, L, Pos, TRUE)
-                   \* "barrier bins fill the volume to the next gates": the next thing on q is whatever follows
-                   bb == [EmptyBin EXCEPT !.qs = o.loc, !.bar = TRUE, !.ops = <<i>>,
-                                           !.st = TLCEval([q \in Q |-> IF q \in L THEN Pos[q] ELSE -1]),
-                                           !.nx = TLCEval([q \in Q |-> IF q \in L THEN Pos[q] + 1 ELSE -1])]
-                   B1 == IF BarrierFix THEN BlockAgainst(S.bins, S.ab, 0, L, {}) ELSE S.bins
-               IN /\ bins' = Append(B1, bb)
-                  /\ pend' = Append(S.pend, Len(S.bins) + 1)
-                  /\ ab' = S.ab /\ nc' = S.nc
-          /\ circ' = Append(circ, o)
-  /\ UNCHANGED <<phase, bs, dl, part, asserts, res>>
+       /\ PrefixOK(TRUE, L) /\ InOrder(NewOp(TRUE, L))
+       /\ \E ord \in PermSeqs(Overlapping(L)) :
+            \E R \in {BarrierResult(L, NewOp(TRUE, L), Len(circ) + 1, ord)} :
+               /\ bins' = R.bins /\ pend' = R.pend /\ ab' = R.ab /\ nc' = R.nc
+               /\ mech' = mech \cup R.mech
+       /\ circ' = Append(circ, NewOp(TRUE, L))
+  /\ UNCHANGED <<phase, bs, dl, part, asserts, res, sid>>
+
+\* the gate number i on L (o = NewOp(FALSE, L)) with the overlapping bins visited in the order ord
+GateResult(L, o, i, ord) ==
+  LET P == Pos
+      adm == SelectSeq(ord, LAMBDA b : CanAccommodate(bins[b], L))
+      inadm == SelectSeq(ord, LAMBDA b : ~CanAccommodate(bins[b], L))
+      S1 == CloseSeq(Cur, inadm, L, P, FALSE)
+      holders == {j \in 1..Len(adm) : L \subseteq Range(bins[adm[j]].qs)}
+      sel == IF adm = <<>> THEN Len(S1.bins) + 1
+             ELSE IF holders # {} THEN adm[MinS(holders)] ELSE adm[1]
+      S2 == IF adm = <<>> THEN [S1 EXCEPT !.bins = Append(@, EmptyBin)]
+            ELSE CloseSeq(S1, SelectSeq(adm, LAMBDA b : b # sel), L, P, FALSE)
+      \* the two `assert`s of the main loop
+      okA == /\ (adm = <<>> => \A q \in L : S1.ab[q] = 0)
+             /\ \A q \in L : S2.ab[q] \in {0, sel}
+      B3 == [S2.bins EXCEPT ![sel] = AddToBin(@, i, o.loc, P)]
+      ab3 == TLCEval([q \in Q |-> IF q \in L THEN sel ELSE S2.ab[q]])
+      B4 == BlockAgainst(B3, ab3, sel, Range(B3[sel].qs), B3[sel])
+  IN [bins |-> B4, ab |-> ab3, pend |-> S2.pend, nc |-> S2.nc, ok |-> okA, mech |-> MechGate(L, adm, holders)]
 
 GateStep(wantNew) ==
   /\ phase = "scan" /\ Len(circ) < MaxOps
   /\ \E L \in GateLocs :
-       LET o == NewOp(FALSE, L)
-           i == Len(circ) + 1
-       IN /\ PrefixOK(FALSE, L) /\ InOrder(o)
-          /\ (\A b \in Overlapping(L) : ~CanAccommodate(bins[b], L)) = wantNew
-          /\ \E ord \in PermSeqs(Overlapping(L)) :
-               LET adm == SelectSeq(ord, LAMBDA b : CanAccommodate(bins[b], L))
-                   inadm == SelectSeq(ord, LAMBDA b : ~CanAccommodate(bins[b], L))
-                   S1 == CloseSeq(Cur, inadm, L, Pos, FALSE)
-                   holders == {j \in 1..Len(adm) : L \subseteq Range(bins[adm[j]].qs)}
-                   sel == IF adm = <<>> THEN Len(S1.bins) + 1
-                          ELSE IF holders # {} THEN adm[MinS(holders)] ELSE adm[1]
-                   S2 == IF adm = <<>> THEN [S1 EXCEPT !.bins = Append(@, EmptyBin)]
-                         ELSE CloseSeq(S1, SelectSeq(adm, LAMBDA b : b # sel), L, Pos, FALSE)
-                   \* the two `assert`s of the main loop
-                   okA == /\ (adm = <<>> => \A q \in L : S1.ab[q] = 0)
-                          /\ \A q \in L : S2.ab[q] \in {0, sel}
-                   B3 == [S2.bins EXCEPT ![sel] = AddToBin(@, i, o.loc, Pos)]
-                   ab3 == TLCEval([q \in Q |-> IF q \in L THEN sel ELSE S2.ab[q]])
-                   B4 == BlockAgainst(B3, ab3, sel, Range(B3[sel].qs), B3[sel].blkd)
-               IN /\ bins' = B4 /\ ab' = ab3 /\ pend' = S2.pend /\ nc' = S2.nc
-                  /\ asserts' = (asserts /\ okA)
-                  /\ phase' = IF S2.nc >= Threshold THEN "midflush" ELSE "scan"
-          /\ circ' = Append(circ, o)
-  /\ UNCHANGED <<bs, dl, part, res>>
+       /\ PrefixOK(FALSE, L) /\ InOrder(NewOp(FALSE, L))
+       /\ (\A b \in Overlapping(L) : ~CanAccommodate(bins[b], L)) = wantNew
+       /\ \E ord \in PermSeqs(Overlapping(L)) :
+            \E R \in {GateResult(L, NewOp(FALSE, L), Len(circ) + 1, ord)} :
+               /\ bins' = R.bins /\ ab' = R.ab /\ pend' = R.pend /\ nc' = R.nc
+               /\ asserts' = (asserts /\ R.ok)
+               /\ phase' = IF R.nc >= Threshold THEN "midflush" ELSE "scan"
+               /\ mech' = mech \cup R.mech
+       /\ circ' = Append(circ, NewOp(FALSE, L))
+  /\ UNCHANGED <<bs, dl, part, res, sid>>
 
 StepGateNewBin == /\ phase = "scan"
                   /\ GateStep(TRUE)
@@ -205,14 +286,16 @@ Rear(p) == {i \in 1..Len(p) : \A j \in i + 1..Len(p) : Range(p[j].loc) \cap Rang
 
 \* "merge previously placed blocks if possible": a block in the rear whose qudits are a subset of the new
 \* block's is pulled in front of it; one whose qudits are a superset swallows it.  Barriers are skipped.
-RECURSIVE Merge(_, _, _)
-Merge(p, loc, ops) ==
+RECURSIVE Merge(_, _, _, _)
+Merge(p, loc, ops, mg) ==
   LET cands == {i \in Rear(p) : p[i].blk /\ (Range(p[i].loc) \subseteq Range(loc) \/ Range(loc) \subseteq Range(p[i].loc))}
-  IN IF cands = {} THEN [part |-> p, loc |-> loc, ops |-> ops]
+  IN IF cands = {} THEN [part |-> p, loc |-> loc, ops |-> ops, mg |-> mg]
      ELSE LET i == MinS(cands)
+              sub == Range(p[i].loc) \subseteq Range(loc)
           IN Merge(RemoveAt(p, i),
-                   IF Range(p[i].loc) \subseteq Range(loc) THEN loc ELSE p[i].loc,
-                   p[i].ops \o ops)
+                   IF sub THEN loc ELSE p[i].loc,
+                   p[i].ops \o ops,
+                   mg \cup {IF sub THEN "merge-sub" ELSE "merge-super"})
 
 RECURSIVE FlushAll(_)
 FlushAll(F) ==
@@ -221,20 +304,20 @@ FlushAll(F) ==
   IN IF ready = {} THEN F
      ELSE LET j == MinS(ready)
               bn == F.bins[F.pend[j]]
-              np == IF bn.bar
-                    THEN Append(F.part, [blk |-> FALSE, loc |-> bn.qs, ops |-> bn.ops])
-                    ELSE LET m == Merge(F.part, SortedSeq(Range(bn.qs)), bn.ops)
-                         IN Append(m.part, [blk |-> TRUE, loc |-> m.loc, ops |-> m.ops])
-          IN FlushAll([bins |-> F.bins, pend |-> RemoveAt(F.pend, j), part |-> np,
+              m == IF bn.bar THEN [part |-> F.part, loc |-> bn.qs, ops |-> bn.ops, mg |-> {}]
+                   ELSE Merge(F.part, SortedSeq(Range(bn.qs)), bn.ops, {})
+              np == Append(m.part, [blk |-> ~bn.bar, loc |-> m.loc, ops |-> m.ops])
+          IN FlushAll([bins |-> F.bins, pend |-> RemoveAt(F.pend, j), part |-> np, mg |-> F.mg \cup m.mg,
                        dl |-> TLCEval([q \in Q |-> IF q \in Range(bn.qs) THEN bn.nx[q] ELSE F.dl[q]])])
 
 \* num_closed reached the threshold after a gate: process_pending_bins(); num_closed = 0
 MidFlush ==
   /\ phase = "midflush"
-  /\ LET F == FlushAll([bins |-> bins, pend |-> pend, dl |-> dl, part |-> part])
-     IN pend' = F.pend /\ dl' = F.dl /\ part' = F.part
+  /\ \E F \in {FlushAll([bins |-> bins, pend |-> pend, dl |-> dl, part |-> part, mg |-> {}])} :
+        /\ pend' = F.pend /\ dl' = F.dl /\ part' = F.part
+        /\ mech' = mech \cup F.mg \cup (IF F.part # part THEN {"midflush"} ELSE {})
   /\ phase' = "scan" /\ nc' = 0
-  /\ UNCHANGED <<bs, circ, bins, ab, asserts, res>>
+  /\ UNCHANGED <<bs, circ, bins, ab, asserts, res, sid>>
 
 \* after the loop: close every bin that is still active, in the order of active_bins (ends = num_cycles - 1:
 \* nothing follows on these qudits)
@@ -266,25 +349,36 @@ Emit == IF EmitMod > 0 THEN Checksum % EmitMod = 0 ELSE FALSE
 
 \* close remaining active bins; process remaining bins; raise if some are left; become the partitioned circuit.
 \* The run ends in a sink state that keeps only the verdict.
+FinalResult ==
+  LET S == CloseRemaining(Cur, 0)
+      F == FlushAll([bins |-> S.bins, pend |-> S.pend, dl |-> dl, part |-> part, mg |-> {}])
+      c == TLCEval(CaseRec(F.part))
+  IN [v |-> IF F.pend # <<>> THEN "pass-raised" ELSE Replay(c, Start(c), 1),
+      part |-> F.part, npend |-> Len(F.pend), fm |-> mech \cup F.mg]
+
 Finalize ==
-  /\ phase = "scan" /\ Len(circ) >= 1 /\ Len(circ) >= Len(Prefix)
-  /\ LET S == CloseRemaining(Cur, 0)
-         F == FlushAll([bins |-> S.bins, pend |-> S.pend, dl |-> dl, part |-> part])
-         c == TLCEval(CaseRec(F.part))
-         v == IF F.pend # <<>> THEN "pass-raised" ELSE Replay(c, Start(c), 1)
-     IN /\ res' = v
-        /\ IF v # "accepted" THEN PrintT(<<"L2VERDICT", bs, NQ, CircOut, v>>) ELSE TRUE
-        /\ IF Emit THEN PrintT(<<"QP", bs, NQ, CircOut, PartOut(F.part), Len(F.pend)>>) ELSE TRUE
+  /\ phase = "scan" /\ Len(circ) >= 1 /\ Len(circ) >= Len(Prefix) /\ Len(circ) >= MinFinal
+  /\ (PrefixMode = "script" => Len(circ) = Len(Scripts[sid].ops))
+  /\ \E R \in {FinalResult} :
+        /\ res' = R.v
+        /\ IF R.v # "accepted" /\ PrefixMode # "script" THEN PrintT(<<"L2VERDICT", bs, NQ, CircOut, R.v>>) ELSE TRUE
+        /\ IF Emit THEN PrintT(<<"QP", bs, NQ, CircOut, PartOut(R.part), R.npend>>) ELSE TRUE
+        /\ IF (R.fm \cap EmitMechs) # {} /\ PrefixMode # "script"
+           THEN PrintT(<<"QPM", bs, NQ, CircOut, MechSeq(R.fm)>>) ELSE TRUE
+        /\ IF PrefixMode = "script"
+           THEN PrintT(<<"QPS", sid, bs, NQ, PartOut(R.part), R.npend, MechSeq(R.fm), R.v>>) ELSE TRUE
   /\ phase' = "done"
   /\ circ' = <<>> /\ bins' = <<>> /\ pend' = <<>> /\ part' = <<>> /\ nc' = 0
-  /\ ab' = [q \in Q |-> 0] /\ dl' = [q \in Q |-> 0]
-  /\ UNCHANGED <<bs, asserts>>
+  /\ ab' = [q \in Q |-> 0] /\ dl' = [q \in Q |-> 0] /\ mech' = {}
+  /\ UNCHANGED <<bs, asserts, sid>>
 
 -----------------------------------------------------------------------------
 Init ==
-  /\ phase = "scan" /\ bs \in BlockSizes /\ circ = <<>>
+  /\ phase = "scan" /\ circ = <<>>
+  /\ IF PrefixMode = "script" THEN sid \in 1..Len(Scripts) /\ bs = Scripts[sid].bs
+                               ELSE sid = 0 /\ bs \in BlockSizes
   /\ bins = <<>> /\ ab = [q \in Q |-> 0] /\ pend = <<>> /\ dl = [q \in Q |-> 0] /\ nc = 0
-  /\ part = <<>> /\ asserts = TRUE /\ res = "none"
+  /\ part = <<>> /\ asserts = TRUE /\ res = "none" /\ mech = {}
 
 Next == StepBarrier \/ StepGateNewBin \/ StepGateJoinBin \/ MidFlush \/ Finalize
 
@@ -303,4 +397,13 @@ Shape ==
 \* L2 |= L1: no pending bin is left ("Unable to process all pending bins") and the output satisfies the property.
 \* An invariant of the repaired algorithm (BarrierFix = TRUE); for the code as it is the verdicts are printed.
 ResOK == res \in {"none", "accepted"}
+
+\* State constraint of the directed search for "trans" (sound pruning: see the head of the module).
+\*   stage 3: the transitive part has decided a test;  stage 2: some active bin has a transitive part;
+\*   stage 1: some active bin has blocked qudits at all.  One more operation raises the stage by at most one.
+ActiveBins == {ab[q] : q \in Q} \ {0}
+StageT == IF "trans" \in mech THEN 3
+          ELSE IF \E b \in ActiveBins : bins[b].blkd # bins[b].bD THEN 2
+          ELSE IF \E b \in ActiveBins : bins[b].blkd # {} THEN 1 ELSE 0
+DirectedTrans == phase = "done" \/ StageT + Slack >= Len(circ)
 =============================================================================
